@@ -22,6 +22,8 @@ func main() {
 	out := fs.String("out", ".", "")
 	replay := fs.String("replay", "", "")
 	racebin := fs.String("racebin", "", "")
+	inFile := fs.String("in", "", "")
+	startAt := fs.Int("start", 0, "")
 	_ = fs.Parse(os.Args[3:])
 	switch cmd {
 	case "run":
@@ -39,6 +41,12 @@ func main() {
 			os.Exit(3)
 		}
 		os.Exit(0) // do not wait for goroutines a stream may have abandoned
+	case "hostileworker":
+		if err := c11Worker(*inFile, *out, *startAt); err != nil {
+			fmt.Fprintln(os.Stderr, "hostileworker:", err)
+			os.Exit(3)
+		}
+		os.Exit(0)
 	case "concworker":
 		if err := c09Worker(*seed, *tier, *out); err != nil {
 			fmt.Fprintln(os.Stderr, "concworker:", err)
